@@ -300,4 +300,284 @@ Proof.
     unfold col_equiv. cbn [c_pk c_name c_type c_val]. rewrite bytes_eqb_refl, Z.eqb_refl, He.
     destruct (c_pk c); reflexivity.
 Qed.
+
+Lemma row_roundtrip r : forallb col_ok r = true ->
+  exists j, marshal_row T fmt_time r = Some j /\ json_clean j = true /\
+  exists r', unmarshal_row T parse_time j = Ok r' /\ all2 (col_equiv executor_eq) r r' = true.
+Proof.
+  intro H.
+  destruct (map_roundtrip col_ok (marshal_col T fmt_time) (unmarshal_col T parse_time) json_clean
+                          (col_equiv executor_eq) col_roundtrip r H) as (js & Hm & Hc & bs & Hu & Hr).
+  unfold marshal_row. rewrite Hm. eexists. split; [reflexivity|]. split.
+  - cbn [json_clean forallb]. rewrite Hc. reflexivity.
+  - unfold unmarshal_row, get_arr. rewrite row_obj_get. cbn [rbind]. rewrite Hu. eauto.
+Qed.
+
+Lemma image_roundtrip i : image_ok i = true ->
+  exists j, marshal_image T fmt_time i = Some j /\ json_clean j = true /\
+  exists i', unmarshal_image T parse_time j = Ok (Some i') /\ image_equiv executor_eq i i' = true.
+Proof.
+  intro H. unfold image_ok in H. repeat rewrite andb_true_iff in H. destruct H as [[Ht Hs] Hr].
+  destruct (sqltype_ok _ Hs) as [Hs1 Hs2].
+  destruct (map_roundtrip (forallb col_ok) (marshal_row T fmt_time) (unmarshal_row T parse_time) json_clean
+                          (all2 (col_equiv executor_eq)) row_roundtrip _ Hr) as (js & Hm & Hc & bs & Hu & Hrr).
+  unfold marshal_image. rewrite Hm. eexists. split; [reflexivity|]. split.
+  - cbn [json_clean forallb]. rewrite Hc, Ht, Hs2. reflexivity.
+  - unfold unmarshal_image, get_str, get_arr.
+    destruct (image_obj_get (JStr (i_table i)) (JStr (sql_text T (i_sqltype i))) (JArr js)) as (G1 & G2 & G3).
+    cbn zeta in G1, G2, G3. rewrite G1, G2, G3. cbn [rbind]. rewrite Hu. cbn [rbind].
+    eexists. split; [reflexivity|].
+    unfold image_equiv. cbn [i_table i_sqltype i_rows]. rewrite bytes_eqb_refl, Hs1, Z.eqb_refl, Hrr. reflexivity.
+Qed.
+
+Lemma oimage_roundtrip o : oimage_ok o = true ->
+  exists j, marshal_oimage T fmt_time o = Some j /\ json_clean j = true /\
+  exists o', unmarshal_image T parse_time j = Ok o' /\ opt_eqb (image_equiv executor_eq) o o' = true.
+Proof.
+  destruct o as [i|]; cbn [oimage_ok marshal_oimage]; intro H.
+  - destruct (image_roundtrip i H) as (j & A & B & i' & C & D). exists j. repeat split; auto.
+    exists (Some i'). split; auto.
+  - exists JNull. repeat split. exists None. split; reflexivity.
+Qed.
+
+Lemma item_roundtrip it : item_ok it = true ->
+  exists j, marshal_item T fmt_time it = Some j /\ json_clean j = true /\
+  exists it', unmarshal_item T parse_time j = Ok it' /\ item_equiv executor_eq it it' = true.
+Proof.
+  intro H. unfold item_ok in H. repeat rewrite andb_true_iff in H. destruct H as [[[Hs Ht] Hb] Ha].
+  destruct (sqltype_ok _ Hs) as [Hs1 Hs2].
+  destruct (oimage_roundtrip _ Hb) as (jb & B1 & B2 & ob & B3 & B4).
+  destruct (oimage_roundtrip _ Ha) as (ja & A1 & A2 & oa & A3 & A4).
+  unfold marshal_item. rewrite B1, A1. eexists. split; [reflexivity|]. split.
+  - cbn [json_clean forallb]. rewrite B2, A2, Ht, Hs2. reflexivity.
+  - unfold unmarshal_item, get_str.
+    destruct (item_obj_get (JStr (sql_text T (l_sqltype it))) (JStr (l_table it)) jb ja) as (G1 & G2 & G3 & G4).
+    cbn zeta in G1, G2, G3, G4. rewrite G1, G2, G3, G4. cbn [rbind]. rewrite B3. cbn [rbind]. rewrite A3. cbn [rbind].
+    eexists. split; [reflexivity|].
+    unfold item_equiv. cbn [l_sqltype l_table l_before l_after].
+    rewrite Hs1, Z.eqb_refl, bytes_eqb_refl, B4, A4. reflexivity.
+Qed.
+
+Theorem json_log_roundtrip u : log_ok u = true ->
+  exists j, marshal_log T fmt_time u = Some j /\ json_clean j = true /\
+  exists u', unmarshal_log T parse_time j = Ok u' /\ log_equiv executor_eq u u' = true.
+Proof.
+  intro H. unfold log_ok in H. repeat rewrite andb_true_iff in H. destruct H as [[[Hx Hb0] Hb1] Hi].
+  destruct (map_roundtrip item_ok (marshal_item T fmt_time) (unmarshal_item T parse_time) json_clean
+                          (item_equiv executor_eq) item_roundtrip _ Hi) as (js & Hm & Hc & bs & Hu & Hr).
+  unfold marshal_log. rewrite Hm. eexists. split; [reflexivity|]. split.
+  - cbn [json_clean forallb]. rewrite Hc, Hx. reflexivity.
+  - unfold unmarshal_log, get_str, get_arr.
+    destruct (log_obj_get (JStr (u_xid u)) (JNum (num_of_int (u_branch u))) (JArr js)) as (G1 & G2 & G3).
+    cbn zeta in G1, G2, G3. rewrite G1, G2, G3. cbn [rbind].
+    assert (Hin : in_int64 (u_branch u) = true) by (unfold in_int64, fits; lia).
+    unfold num_of_int. cbn [n_int]. rewrite Hin, Hb0. cbn [rbind]. rewrite Hu. cbn [rbind].
+    eexists. split; [reflexivity|].
+    unfold log_equiv. cbn [u_xid u_branch u_items]. rewrite bytes_eqb_refl, Z.eqb_refl, Hr. reflexivity.
+Qed.
 End Json.
+
+(* ================================================================ context codec *)
+Definition no_sep (sep : byte) (s : bytes) : bool := forallb (fun c => negb (byte_eqb c sep)) s.
+
+Lemma byte_eqb_refl c : byte_eqb c c = true.
+Proof. now apply byte_eqb_eq. Qed.
+
+Lemma split_clean sep s : no_sep sep s = true -> split_on sep s = [s].
+Proof.
+  induction s as [|c r IH]; cbn; [reflexivity|]. intro H. apply andb_true_iff in H. destruct H as [Hc Hr].
+  apply negb_true_iff in Hc. rewrite Hc, (IH Hr). reflexivity.
+Qed.
+Lemma split_app sep a b : no_sep sep a = true -> split_on sep (a ++ sep :: b) = a :: split_on sep b.
+Proof.
+  induction a as [|c r IH]; cbn [app split_on no_sep forallb].
+  - intros _. rewrite byte_eqb_refl. reflexivity.
+  - intro H. apply andb_true_iff in H. destruct H as [Hc Hr]. apply negb_true_iff in Hc.
+    rewrite Hc. unfold no_sep in IH. rewrite (IH Hr). reflexivity.
+Qed.
+Lemma clean_no_sep s : clean_text s = true -> no_sep c_amp s = true /\ no_sep c_eq s = true.
+Proof.
+  unfold clean_text, no_sep. intro H. rewrite forallb_forall in H.
+  split; apply forallb_forall; intros x Hx; specialize (H x Hx); apply andb_true_iff in H; tauto.
+Qed.
+Lemma no_sep_app sep a b : no_sep sep a = true -> no_sep sep b = true -> no_sep sep (a ++ b) = true.
+Proof. unfold no_sep. intros. rewrite forallb_app. now rewrite H, H0. Qed.
+
+Lemma decode_pair_kv k v : no_sep c_eq k = true -> no_sep c_eq v = true ->
+  decode_pair (k ++ c_eq :: v) = Some (k, v).
+Proof.
+  intros Hk Hv. unfold decode_pair. rewrite (split_app _ _ _ Hk), (split_clean _ _ Hv).
+  destruct k; reflexivity.
+Qed.
+
+Theorem ctx_two_roundtrip k1 v1 k2 v2 :
+  clean_text k1 = true -> clean_text v1 = true -> clean_text k2 = true -> clean_text v2 = true ->
+  decode_ctx (encode_ctx [(k1, v1); (k2, v2)]) = [(k1, v1); (k2, v2)].
+Proof.
+  intros A B C D.
+  destruct (clean_no_sep _ A) as [A1 A2]. destruct (clean_no_sep _ B) as [B1 B2].
+  destruct (clean_no_sep _ C) as [C1 C2]. destruct (clean_no_sep _ D) as [D1 D2].
+  cbn [encode_ctx app].
+  rewrite app_comm_cons, app_assoc.
+  assert (P1 : no_sep c_amp (k1 ++ c_eq :: v1) = true).
+  { apply no_sep_app; [exact A1|]. unfold no_sep in *. cbn [forallb]. rewrite B1. reflexivity. }
+  assert (P2 : no_sep c_amp (k2 ++ c_eq :: v2) = true).
+  { apply no_sep_app; [exact C1|]. unfold no_sep in *. cbn [forallb]. rewrite D1. reflexivity. }
+  unfold decode_ctx. rewrite (split_app _ _ _ P1), (split_clean _ _ P2).
+  cbn [filter_map]. rewrite !decode_pair_kv by assumption.
+  destruct k1; reflexivity.
+Qed.
+
+Lemma ctx_get_two (ks kc a b : bytes) : ks = k_serializer -> kc = k_compressor ->
+  ctx_get ks [(ks, a); (kc, b)] = Some a /\ ctx_get kc [(ks, a); (kc, b)] = Some b.
+Proof. intros -> ->. vm_compute. split; reflexivity. Qed.
+
+Lemma enc_nonempty a b : encode_ctx [(k_serializer, a); (k_compressor, b)] <> [].
+Proof. unfold k_serializer. cbn. discriminate. Qed.
+
+(* a '&' in a value breaks the context *)
+Lemma ctx_refuted : exists v,
+  ctx_get k_compressor (decode_ctx (encode_ctx [(k_serializer, s_json); (k_compressor, v)])) <> Some v.
+Proof. exists (bs "Gzip&x"). vm_compute. discriminate. Qed.
+
+(* ================================================================ composition *)
+Section Main.
+Variable T : gotable.
+Variable fmt_time : tm -> bytes.
+Variable parse_time : bytes -> option tm.
+Variable compress : ckind -> bytes -> bytes.
+Variable decompress : ckind -> bytes -> option bytes.
+Variable json_print : json -> bytes.
+Variable json_parse : bytes -> option json.
+Variable pb_print : plog -> bytes.
+Variable pb_parse : bytes -> option plog.
+Hypothesis time_rt : forall t, tm_wf t = true -> parse_time (fmt_time t) = Some t.
+Hypothesis time_ascii : forall t, tm_wf t = true -> valid_utf8 (fmt_time t) = true.
+Hypothesis comp_rt : forall k x, decompress k (compress k x) = Some x.
+Hypothesis json_rt : forall j, json_clean j = true -> json_parse (json_print j) = Some j.
+
+Notation Flush := (flush T fmt_time compress json_print pb_print).
+Notation ReadBack := (read_back T parse_time decompress json_parse pb_parse).
+
+Lemma decomp_comp k x : decompress_by decompress k (compress_by compress k x) = Some x.
+Proof. destruct k; cbn; auto. Qed.
+
+Lemma read_after_flush ser d k x :
+  clean_text ser = true -> clean_text d = true -> select T d = k ->
+  ReadBack (encode_ctx [(k_serializer, ser); (k_compressor, d)]) (compress_by compress k x)
+  = if bytes_eqb ser s_json then
+      match json_parse x with Some t => unmarshal_log T parse_time t | None => Err end
+    else if bytes_eqb ser s_protobuf then
+      match pb_parse x with Some p => Ok (of_plog json_parse p) | None => Err end
+    else Err.
+Proof.
+  intros Hs Hd Hk. unfold read_back. cbv zeta.
+  destruct (encode_ctx [(k_serializer, ser); (k_compressor, d)]) as [|c0 l0] eqn:E.
+  { exfalso. revert E. apply enc_nonempty. }
+  rewrite <- E. rewrite ctx_two_roundtrip by (try assumption; reflexivity).
+  destruct (ctx_get_two k_serializer k_compressor ser d eq_refl eq_refl) as [G1 G2]. rewrite G2, Hk, decomp_comp. cbv beta iota. rewrite G1. reflexivity.
+Qed.
+
+Theorem lossless_json c u :
+  wf_table T = true -> bytes_eqb (cf_ser c) s_json = true -> clean_text (cf_ctype c) = true ->
+  log_ok u = true ->
+  exists ctx info, Flush c u = Some (ctx, info) /\
+  exists u', ReadBack ctx info = Ok u' /\ log_equiv executor_eq u u' = true.
+Proof.
+  intros Hwf Hser Hct Hok.
+  destruct (json_log_roundtrip T fmt_time parse_time time_rt time_ascii Hwf u Hok)
+    as (j & Hm & Hc & u' & Hu & He).
+  destruct (wf_parts T Hwf) as (_ & _ & _ & _ & HN).
+  apply bytes_eqb_eq in Hser.
+  unfold flush, serialize. rewrite Hser, bytes_eqb_refl, Hm. cbn [option_map].
+  eexists. eexists. split; [reflexivity|]. exists u'. split; [|exact He].
+  unfold declared. destruct (cf_enable c).
+  - rewrite (read_after_flush s_json (cf_ctype c) (select T (cf_ctype c))) by (auto; reflexivity).
+    rewrite bytes_eqb_refl, (json_rt _ Hc). exact Hu.
+  - change (json_print j) with (compress_by compress CNone (json_print j)).
+    rewrite (read_after_flush s_json s_None CNone) by (auto; reflexivity).
+    rewrite bytes_eqb_refl, (json_rt _ Hc). exact Hu.
+Qed.
+End Main.
+
+(* ================================================================ totality: reading back never panics *)
+Notation np r := (r <> Panic).
+Lemma rbind_np {A B} (r : res A) (f : A -> res B) : np r -> (forall a, np (f a)) -> np (rbind r f).
+Proof. destruct r; cbn; intros H1 H2; [apply H2|discriminate|exfalso; now apply H1]. Qed.
+Lemma mapM_np {A B} (f : A -> res B) l : (forall a, np (f a)) -> np (mapM f l).
+Proof.
+  intro H. induction l; cbn; [discriminate|]. apply rbind_np; [apply H|]. intro.
+  apply rbind_np; [exact IHl|]. intro. discriminate.
+Qed.
+
+Ltac split_matches :=
+  repeat (first [ discriminate
+                | match goal with |- context [match ?x with _ => _ end] => destruct x eqn:? end ]).
+
+Section Total.
+Variable T : gotable.
+Variable parse_time : bytes -> option tm.
+
+Lemma generic_np j : np (generic_value j).
+Proof. unfold generic_value. split_matches. Qed.
+
+Lemma value_np ty j : np (unmarshal_value T parse_time ty j).
+Proof.
+  unfold unmarshal_value.
+  destruct j; try discriminate;
+    destruct (lookupZ ty (tb_cases T)) as [[| w | | | src]|]; try apply generic_np;
+    split_matches; try apply generic_np.
+Qed.
+
+Lemma col_np j : np (unmarshal_col T parse_time j).
+Proof.
+  unfold unmarshal_col.
+  destruct j; try discriminate.
+  destruct (jobj_get k_keyType l) as [[]|]; try discriminate.
+  destruct (jobj_get k_name l) as [[]|]; try discriminate.
+  destruct (jobj_get k_type l) as [[]|]; try discriminate.
+  destruct (n_int n); try discriminate. destruct (fits W16 z); try discriminate.
+  apply rbind_np; [apply value_np|]. intro. discriminate.
+Qed.
+
+Lemma get_str_np k l : np (get_str k l).
+Proof. unfold get_str. split_matches. Qed.
+Lemma get_arr_np k l : np (get_arr k l).
+Proof. unfold get_arr. split_matches. Qed.
+
+Lemma row_np j : np (unmarshal_row T parse_time j).
+Proof.
+  unfold unmarshal_row. destruct j; try discriminate.
+  apply rbind_np; [apply get_arr_np|]. intro. apply mapM_np. apply col_np.
+Qed.
+Lemma image_np j : np (unmarshal_image T parse_time j).
+Proof.
+  unfold unmarshal_image. destruct j; try discriminate.
+  apply rbind_np; [apply get_str_np|]. intro. apply rbind_np; [apply get_str_np|]. intro.
+  apply rbind_np; [apply get_arr_np|]. intro. apply rbind_np; [apply mapM_np, row_np|]. intro. discriminate.
+Qed.
+Lemma item_np j : np (unmarshal_item T parse_time j).
+Proof.
+  unfold unmarshal_item. destruct j; try discriminate.
+  apply rbind_np; [apply get_str_np|]. intro. apply rbind_np; [apply get_str_np|]. intro.
+  apply rbind_np; [apply image_np|]. intro. apply rbind_np; [apply image_np|]. intro. discriminate.
+Qed.
+Lemma log_np j : np (unmarshal_log T parse_time j).
+Proof.
+  unfold unmarshal_log. destruct j; try discriminate.
+  apply rbind_np; [apply get_str_np|]. intro. apply rbind_np.
+  { split_matches. }
+  intro. apply rbind_np; [apply get_arr_np|]. intro. apply rbind_np; [apply mapM_np, item_np|]. intro. discriminate.
+Qed.
+
+Theorem read_back_total decompress json_parse pb_parse ctx info :
+  read_back T parse_time decompress json_parse pb_parse ctx info <> Panic.
+Proof.
+  unfold read_back. cbv zeta. destruct ctx; [discriminate|].
+  match goal with |- context [match ?x with Some _ => _ | None => _ end] => destruct x end; [|discriminate].
+  match goal with |- context [if ?x then _ else _] => destruct x end.
+  - destruct (json_parse b0); [apply log_np|discriminate].
+  - match goal with |- context [if ?x then _ else _] => destruct x end; [|discriminate].
+    destruct (pb_parse b0); discriminate.
+Qed.
+End Total.
